@@ -148,6 +148,23 @@ def run(cx: Cx):
     from .common import status_atom_kind
     from sa.terms import f_not
     sched_lines = {lid for lid, _ in loops}
+    # a step of a running model always walks the queue: no flag, cache or early return lets a step pass without giving the
+    # registered systems their turn
+    from .c02 import _passed_entry_check
+    skipped = None
+    for p in ps:
+        if p.end == 'raise' or _passed_entry_check(cx, p) is False:
+            continue
+        if not any(e.kind == 'loop' and e.node.lineno in sched_lines for e in p.events):
+            skipped = p
+            break
+    if skipped is not None:
+        cx.violation('R-ITER', fn.qualname, 'running-step-walks-the-queue',
+                     f"execute_systems can finish a step of a running model without walking the queue (path condition {skipped.cond!r}): "
+                     f"systems that stay registered for the whole timestep do not run in it", where=cx.where(fn, skipped.last.line if skipped.last else None),
+                     path=skipped.lines())
+    else:
+        cx.ok('R-ITER', 'every step of a running model walks the queue', where=cx.where(fn), function=fn.qualname)
     early = None
     n_exits = 0
     for p in ps:
